@@ -593,7 +593,7 @@ func (l *Lexer) shiftXML(rawTag Hash) []byte {
 				}
 				l.r.Move(1)
 			}
-			if h := ToHash(parse.ToLower(parse.Copy(l.r.Lexeme()[mark+2:]))); h == rawTag { // copy so that ToLower doesn't change the case of the underlying slice
+			if h := ToHash(parse.ToLower(parse.Copy(l.r.Lexeme()[mark+2:]))); h == rawTag && (c == ' ' || c == '\t' || c == '\n' || c == '\r' || c == '\f' || c == '/' || c == '>' || c == 0) { // copy so that ToLower doesn't change the case of the underlying slice; the name must end here (</svg:rect> is another element)
 				if depth--; depth == 0 {
 					break
 				}
